@@ -88,8 +88,7 @@ def gen_cases(tier, verif_seed):
             # quantifier for failures after the function returned
             pr = pr % 3
         in_prot, out_prot = PAIRS[pr]
-        if in_prot == 'httprpc' or st in ('badreturn', 'genraise0',
-                                          'genraiseN', 'verb', 'charset'):
+        if in_prot == 'httprpc' or st in ('verb', 'charset'):
             rt = 'wsgi'     # (verb and Content-Type only exist over HTTP)
         kind = rng.choice(KINDS)
         exc = ExcSpec.draw(rng, kind, seed)
@@ -315,7 +314,13 @@ def judge(case, tr, uni, info, is_fault, mname):
         # an escaping exception is C10/C13 territory; here it only matters
         # that listeners still saw a consistent prefix and the close
         site = canon.exc_site(info['exc'])
-        V.append({'sig': 'escaped|%s|%s' % (type(info['exc']).__name__, site),
+        sig = 'escaped|%s|%s' % (type(info['exc']).__name__, site)
+        if case['route'] == 'sb' and info['exc_where'] == 'get_out_string' \
+                and st in ('badreturn', 'genraise0', 'genraiseN'):
+            # one finding whatever was raised where while the response was
+            # being serialised: ServerBase leaves it to the transport
+            sig = 'unconverted-serialisation-failure|route=sb'
+        V.append({'sig': sig,
                   'what': 'exception %s escaped the %s route at %s (%s); '
                   'event protocol cannot complete' % (
                       type(info['exc']).__name__, case['route'], site,
